@@ -132,6 +132,19 @@ def make_inv_script(route, method, wobj):
         I, ctx, ver, req = common.new_interp(ex, reg)
         common.run(I, wobj, req)
         calls = [e for e in I.events if e[0] == 'call' and e[1] == target]
+        if calls and shape == 'map':
+            # the list handed to set_inventory holds one record per key of
+            # the request's `inventories` object: it was filled, once per
+            # iteration and unconditionally, by loops that run over that
+            # object (every element's class and values are checked above)
+            from pyvc.interp import _ReplayColl
+            x, ok = calls[-1][2][1], True
+            while isinstance(x, _ReplayColl):
+                ok = ok and x.unconditional and x.kind in ('list', 'dict')
+                x = x.seq.origin
+            ok = ok and x is I.ghost.get('c11.map')
+            ex.oblige('C11.T.every_requested_class_handed_over', ok, 'T',
+                      dict(info, handed=repr(calls[-1][2][1])[:80]))
         if calls and shape == 'one':
             # the object that reaches the object layer was checked
             ex.oblige('C11.T.inventory_checked_before_write',
@@ -196,6 +209,15 @@ def requested(I, attrs, c):
             z3.Select(I.fld_none('RequestAttr', 'consumer_type_id'), ra))
 
 
+def _type_kept(I, c):
+    C = classes.CONSUMER
+    t0, n0 = I.ghost['c11.type0']
+    tn = z3.Select(I.fld_none(C, 'consumer_type_id'), c)
+    return z3.And(tn == z3.Select(n0, c),
+                  z3.Implies(z3.Not(tn), z3.Select(
+                      I.fld(C, 'consumer_type_id'), c) == z3.Select(t0, c)))
+
+
 def done(I, attrs, c):
     """consumer c carries what the request asked for, and its row agrees"""
     C = classes.CONSUMER
@@ -209,6 +231,9 @@ def done(I, attrs, c):
         z3.Implies(z3.And(z3.Not(rtn), rt != 0), z3.And(
             z3.Not(z3.Select(I.fld_none(C, 'consumer_type_id'), c)),
             z3.Select(I.fld(C, 'consumer_type_id'), c) == rt)),
+        # no type in the request (microversion < 1.38): the consumer keeps
+        # the type it had
+        z3.Implies(z3.Or(rtn, rt == 0), _type_kept(I, c)),
         row_matches(I, c))
 
 
@@ -243,6 +268,8 @@ def script_update_consumers(ex):
     C = classes.CONSUMER
     consumers = I.fresh_list('consumers', ('obj', C))
     attrs = I.fresh_map('request_attrs', 'str', ('obj', common.RequestAttr))
+    I.ghost['c11.type0'] = (I.fld(C, 'consumer_type_id'),
+                            I.fld_none(C, 'consumer_type_id'))
     j, j2 = z3.Ints('j!ucpre j2!ucpre')
     c, c2 = z3.Select(consumers.arr, j), z3.Select(consumers.arr, j2)
     nn = lambda cls, f, o: z3.Not(z3.Select(I.fld_none(cls, f), o))
@@ -295,6 +322,8 @@ def build(tier, seed):
                        common.handler_names(wobj))
     chk.script('update_consumers', script_update_consumers,
                ['placement/handlers/util.py:update_consumers'])
+    chk.script('_set_inventory split', script_set_inventory_split,
+               ['placement/objects/resource_provider.py:_set_inventory'])
     chk.script('inventory.find', script_find,
                ['placement/objects/inventory.py:find'])
     chk.script('_add_inventory_to_provider', script_add_inventory,
@@ -344,6 +373,86 @@ def find_inv(I, frame, i, seq):
               z3.Select(I.fld(INV, 'resource_class'),
                         z3.Select(lst.arr, j)) != want)),
         patterns=[z3.Select(lst.arr, j)])]
+
+
+def script_set_inventory_split(ex):
+    """_set_inventory hands each helper exactly its share: the classes of the
+    request that have no row yet go to _add_inventory_to_provider, those with
+    a row to _update_inventory_for_provider, the stored classes the request
+    does not name to _delete_inventory_from_provider (each with the request's
+    own record list); a helper is skipped only when its share is empty.  With
+    the helper body proofs (find / add / update here, the delete in C08) the
+    provider is left with exactly the requested records."""
+    from pyvc.values import SSet
+    reg = lib.base_registry()
+    reg['fields'].update(classes.FIELDS)
+    reg['getattr'] = lib.context_getattr_hook
+    calls = {}
+
+    def rec(name):
+        def stub(I, a, k):
+            calls.setdefault(name, []).append(a)
+            return VList([]) if name == 'update' else None
+        return stub
+    reg['calls'][id(rp_obj_mod._delete_inventory_from_provider)] = rec('delete')
+    reg['calls'][id(rp_obj_mod._add_inventory_to_provider)] = rec('add')
+    reg['calls'][id(rp_obj_mod._update_inventory_for_provider)] = rec('update')
+    reg['calls'][id(rp_obj_mod.ResourceProvider.increment_generation)] = \
+        rec('cas')
+    box = {}
+
+    def current(I, a, k):
+        box['existing'] = I.fresh_set('existing_resources', 'int')
+        return box['existing']
+    reg['calls'][id(rp_obj_mod._get_current_inventory_resources)] = current
+    I = Interp(ex, reg)
+    ctx = I.ghost['ctx'] = lib.CtxStub()
+    rp = I.fresh('rp', ('obj', classes.RP))
+    lst = I.fresh_list('inv_list', ('obj', INV))
+    j = z3.Int('j!split')
+    e = z3.Select(lst.arr, j)
+    ex.hyp(ops.forall([j], z3.Implies(
+        z3.And(j >= 0, j < lst.len),
+        z3.Not(z3.Select(I.fld_none(INV, 'resource_class'), e))),
+        patterns=[z3.Select(lst.arr, j)]))
+    fn = rp_obj_mod._set_inventory
+    fn = getattr(fn, '__wrapped__', fn)
+    try:
+        I.call(fn, [ctx, rp, lst], {})
+    except PyRaise as pr:
+        if pr.exc.cls.__name__ == 'ResourceClassNotFound':
+            return          # an unknown class name: nothing was handed on
+        raise Undecided('_set_inventory raised %s' % pr.exc.cls.__name__)
+    existing = box['existing']
+    x = z3.Int('x!split')
+    cid = ctx.rc_cache.f_id
+    named = z3.Exists([j], z3.And(
+        j >= 0, j < lst.len,
+        cid(z3.Select(I.fld(INV, 'resource_class'), e)) == x))
+    shares = {'add': z3.And(named, z3.Not(z3.Select(existing.arr, x))),
+              'update': z3.And(named, z3.Select(existing.arr, x)),
+              'delete': z3.And(z3.Not(named), z3.Select(existing.arr, x))}
+    for name, share in sorted(shares.items()):
+        got = calls.get(name, [])
+        if not got:
+            ex.oblige('C11.T.set_inventory.%s_skipped_only_if_nothing_to_%s'
+                      % (name, name),
+                      ops.forall([x], z3.Not(share)), 'T')
+            continue
+        a = got[-1]
+        ids = a[-1]
+        ok = len(got) == 1 and isinstance(ids, SSet) and a[1] is rp and \
+            (name == 'delete' or a[2] is lst)
+        if not ok:
+            ex.oblige('C11.T.set_inventory.%s_gets_its_share' % name, False,
+                      'T', {'args': repr(a)[:200]})
+            continue
+        x0 = I.fresh('x0', 'int').t
+        ex.oblige('C11.T.set_inventory.%s_gets_its_share' % name,
+                  z3.Select(ids.arr, x0) ==
+                  z3.substitute(share, (x, x0)), 'T')
+    ex.oblige('C11.T.set_inventory.ends_with_the_generation_check',
+              len(calls.get('cas', [])) == 1, 'T')
 
 
 def script_find(ex):
